@@ -211,6 +211,11 @@ var kC08CLI = run.NewKind("c08.command", func(c *run.Ctx, t c08CLI) *run.Fail {
 		return nil
 	}
 	stderr := string(res.Stderr)
+	if t.Strace != "" && strings.Contains(stderr, "runtime: netpollBreak write failed") {
+		// the injected write error hit the Go runtime's own wake-up pipe, not a write of the command
+		c.Inconclusive("fault-hit-the-go-runtime")
+		return nil
+	}
 	for _, m := range goCrashMarks[:3] {
 		if strings.Contains(stderr, m) && (strings.Contains(stderr, "goroutine ") || strings.Contains(stderr, "fatal error:")) && strings.Contains(stderr, ".go:") {
 			return run.Failf("gojq %q printed a Go stack trace (%s), exit %d:\n%s", t.Args, m, res.Code, run.Clip(stderr))
@@ -414,6 +419,11 @@ func c08RandomCLI(r *rand.Rand) c08CLI {
 	return c08CLI{Args: args, StdinHex: hex.EncodeToString([]byte(stdin)), Files: files}
 }
 
+var c08NilPrograms = []string{"add", ". + {a: 1}", "{a: 1} + .", ". + [1]", "[1] + .", ". * {a: {b: 1}}", ".a = 1", ".[0] = 1", ".a.b |= 2", ".[1:] = [1]", "del(.a)", "del(.[0])", "to_entries", "with_entries(.)", "map_values(.)", "map(.)", "keys", "setpath([\"a\"]; 1)",
+	"setpath([0]; 1)", "delpaths([[\"a\"]])", "[.[]]", "tojson", "tostream", "[paths]", "walk(.)", "sort", "group_by(.)", "unique", "flatten", "reverse", "transpose", "implode", "join(\",\")", "min, max", "from_entries", ". - [1]", "index(1)", "has(\"a\")", "has(0)",
+	"contains({})", "contains([])", "inside({})", "limit(1; .[]?)", "first, last", "any, all", "[combinations]", "getpath([\"a\"])", "to_entries | from_entries", "@json, @text", "@csv", "tojson | fromjson", "length", "add(.[])", ".[] += 1", ".[] |= empty", ".. |= .", "pick(.a)", "pick(.[0])",
+	"to_entries | map(.value) | add", "[.[] | . + {z: 1}]", "reduce .[] as $x ({}; . + $x)", "reduce .[] as $x (null; . + $x)", "[., .] | add | .q = 1", "map_values(. + {k: 1})", ".[0] += {k: 1}", ".[0] *= {k: {l: 1}}", "input?", "splits(\"a\")", "ltrimstr(\"a\")", "tostring", "ascii_downcase", "test(\"a\")", "@base64", "env | length", "getpath([\"a\", \"b\"]) = 1", "paths(..)", "leaf_paths", "any(.[]; .)", "isvalid(.a)", "error", "halt_error", "min_by(.a), max_by(.a)", "unique_by(.a)", "sort_by(.a)", "group_by(.a)", "IN(.[])", "INDEX(.a)", "ascii", "@sh", "@html", "@uri", "tojson | @base64 | @base64d", "splits(\"a\"; null)", "sub(\"a\"; \"b\")", "capture(\"a\")", "ltrimstr(1)", "significand", "getpath([1:2])?", ".[:1]", ".[\"a\"]?", "..", "recurse(.[]?)", "env.PATH", "$ENV | type", "input_line_number", "$__loc__", "path(..)", "del(..)", "del(.[])", "to_entries[]", "tostream | tojson", "fromstream(tostream)", "truncate_stream(1; tostream)?", "limit(3; repeat(.))", "until(true; .)", "[range(2) as $i | .]", "getpath(paths)", "splits", "combinations(2)", "walk(if type == \"object\" then . + {w: 1} else . end)", "with_entries(.value += 1)?", "map_values(empty)", "add / 2", "flatten(0)", "flatten(-1)", "nth(0)", "nth(0; .[])", "first(.[])", "isempty(.[])", "tojson | length", "utf8bytelength", "ltrimstr(.)", "startswith(\"a\")", "abs", "toarray", "have_literal_numbers", "getpath([]) = 1", "trim", "ascii(65)?", "@json \"x\\(.)\"", "\"\\(.)\"", "objects, arrays, iterables, scalars, nulls", "tojson | fromjson | . + {a: 1}", "debug", "debug(.)", "stderr", "input_filename", "ltrimstr(\"\")", "splits(\"\")", "limit(0; .)", "getpath([\"a\"]; 1)?", "pick(first)", "have_decnum", "abs?", "toarray | add", "group_by(.) | add", "to_entries | add", "[.[]?] | add", "[.] | add", "[., null, .] | add", "[null, .] | add", "[., .] | add", "[[.], [.]] | add | add"}
+
 func init() {
 	run.Register(&run.Prop{
 		ID: "C08", Level: "exploration", MinNontrivial: 5000,
@@ -438,6 +448,14 @@ func init() {
 			}
 			emit := func(src string) {
 				kC08Lib.Do(c, c08Lib{SrcHex: hex.EncodeToString([]byte(src)), Input: run.TV{V: pickIn()}, Var: run.TV{V: pickIn()}})
+			}
+			// nil containers (valid values of the documented input types) through every container operation
+			for _, in := range []any{map[string]any(nil), []any(nil), []any{map[string]any(nil), map[string]any{"y": 1}}, []any{[]any(nil), []any{1}}, map[string]any{"a": map[string]any(nil), "b": []any(nil)}} {
+				for _, src := range c08NilPrograms {
+					for _, w := range []string{"%s", ". as $x | (%s), $x", "[., {y: 1}, .] | (%s)", "[., [1]] | (%s)", "{a: .} | (.a | %s), (%s)", "$v | (%s)"} {
+						kC08Lib.Do(c, c08Lib{SrcHex: hex.EncodeToString([]byte(strings.ReplaceAll(w, "%s", src))), Input: run.TV{V: in}, Var: run.TV{V: in}})
+					}
+				}
 			}
 			qs := gen.AllCorpusQueries()
 			names := builtinNames()
